@@ -316,7 +316,7 @@ func check(args []string) int {
 			e.MaxSteps = h.MaxSteps
 		}
 		e.RecordUnsat = *tier == "thorough"
-		res := e.Explore(f, symgo.Options{Bounds: ts.Bounds, MapOrder: h.MapOrder, MaxViolations: 40, Seed: int64(seed)})
+		res := e.Explore(f, symgo.Options{Bounds: ts.Bounds, MapOrder: h.MapOrder, MaxViolations: 40, Seed: int64(seed), Witnesses: 4 * validationRuns(*tier)})
 		if e.RecordUnsat && len(res.UnsatQueries) > 0 {
 			qs := make([]string, 0, len(res.UnsatQueries))
 			for q := range res.UnsatQueries {
@@ -419,6 +419,13 @@ func check(args []string) int {
 		}
 		// translator validation: random concrete scripts through the engine and through the native build
 		if k := validationRuns(*tier); k > 0 && len(res.Violations) == 0 {
+			if h.Threads > 1 {
+				// native runs of scheduler harnesses repeat the scenario many times: fewer scripts
+				k = (k + 2) / 3
+				if len(res.Witnesses) > 2*k {
+					res.Witnesses = res.Witnesses[:2*k]
+				}
+			}
 			bin, ok := nativeBins[h.Pkg]
 			if !ok {
 				var funcs []string
@@ -441,9 +448,10 @@ func check(args []string) int {
 			if bin != "" {
 				t0 := time.Now()
 				vr := validateHarness(e, f, h, ts, bin, k, int64(seed)+1, valTmp)
+				validateWitnesses(&vr, res.Witnesses, h, ts, bin, valTmp)
 				hr.Validation = &vr
-				fmt.Printf("translator validation %s: %d random concrete scripts run in engine and natively, %d agree, %d discarded by assumptions (%.1fs)\n",
-					h.Func, vr.Runs, vr.Agree, vr.Discarded, time.Since(t0).Seconds())
+				fmt.Printf("translator validation %s: %d/%d solver-produced path witnesses behave natively as the engine predicted; %d/%d random concrete scripts agree engine vs native (%d discarded by assumptions) (%.1fs)\n",
+					h.Func, vr.WitAgree, vr.Witnesses, vr.Agree, vr.Runs, vr.Discarded, time.Since(t0).Seconds())
 				for _, m := range vr.Mismatches {
 					inconclusive = append(inconclusive, fmt.Sprintf("ENGINE-MISMATCH %s: concrete run differs between engine and native build: %s", h.Func, m))
 				}
@@ -552,7 +560,7 @@ func writeEvidence(id, tier string, seed int, spec checkSpec, runs []harnessRun,
 	var hevs []hEv
 	totalPaths, totalNontrivial, obl, dis := 0, 0, 0, 0
 	var samples []interface{}
-	validated := 0
+	validated, witnessed := 0, 0
 	for _, r := range runs {
 		res := r.Res
 		h := hEv{Harness: r.Spec.Pkg + "." + r.Spec.Func, About: r.Spec.About, Bounds: r.Tier.Bounds, Paths: res.Paths, Completed: res.Completed,
@@ -562,6 +570,7 @@ func writeEvidence(id, tier string, seed int, spec checkSpec, runs []harnessRun,
 			Reached: res.Reached, Funcs: res.Funcs, Replays: r.Replays, MapOrder: r.Spec.MapOrder, Threads: r.Spec.Threads, Switches: r.Spec.Switches, Validation: r.Validation}
 		if r.Validation != nil {
 			validated += r.Validation.Agree
+			witnessed += r.Validation.WitAgree
 		}
 		if len(res.Unsupported) > 0 {
 			h.Inconcl = res.Unsupported
@@ -611,6 +620,7 @@ func writeEvidence(id, tier string, seed int, spec checkSpec, runs []harnessRun,
 		cov["load_s"] = e.LoadSeconds
 	}
 	cov["translator_validation"] = map[string]interface{}{"concrete_scripts_agreeing_engine_vs_native": validated,
+		"path_witnesses_confirmed_natively": witnessed,
 		"what": "random concrete draw scripts executed by the engine (concrete mode, no solver) and by the native build of the same harness; failed assertions, reached labels and panics must agree"}
 	if evidenceCross != nil {
 		cov["cross_solver_recheck"] = evidenceCross
